@@ -1013,8 +1013,8 @@ fn convert_morphology(fe: SvgNode, scale: Size, primitives: &[Primitive]) -> Kin
         _ => MorphologyOperator::Erode,
     };
 
-    let mut radius_x = PositiveF32::new(scale.width()).unwrap();
-    let mut radius_y = PositiveF32::new(scale.height()).unwrap();
+    let mut radius_x = PositiveF32::new(1.0).unwrap();
+    let mut radius_y = PositiveF32::new(1.0).unwrap();
     if let Some(list) = fe.attribute::<Vec<f32>>(AId::Radius) {
         let mut rx = 0.0;
         let mut ry = 0.0;
